@@ -45,6 +45,7 @@ func c06scenarioX(k int, withUnregister bool, slow bool, global bool, shutdown b
 			rcancel()
 		}()
 	}
+	rejectFirst := !shutdown && !slow && zzverif.Choose("rejectFirst", 2) == 1
 	repDone := make(chan struct{})
 	startRep := make(chan struct{})
 	if !shutdown {
@@ -55,6 +56,10 @@ func c06scenarioX(k int, withUnregister bool, slow bool, global bool, shutdown b
 		<-startRep
 		if shutdown {
 			defer src.wa.Done(rctx) // the watcher finishes after its last report
+		}
+		if rejectFirst {
+			// a rejected update installs nothing and consumes no version number
+			_ = src.wa.ReportNewValue(rctx, mkValue(src.t, hval{setA: true, a: 50, setBad: true, bad: true}))
 		}
 		for i := 1; i <= k; i++ {
 			if e := src.wa.ReportNewValue(rctx, mkValue(src.t, hval{setA: true, a: int64(i)})); e != nil {
